@@ -9,7 +9,7 @@
 #include <pthread.h>
 
 pv_ctx pv = { .prop = "?", .nshards = 1, .scale_pct = 100 };
-pv_cur_t pv_cur;
+__thread pv_cur_t pv_cur;
 
 /* ------------------------------------------------------------------ PRNG */
 static uint64_t splitmix(uint64_t* x) {
